@@ -17,19 +17,59 @@ CORPUS = [
 ]
 
 
+INTERESTING = [0, 1, 7, 8, 9, 16, 24, 31, 32, 33, 40, 48, 63, 64, 65, 72, 96, 120, 127, 128, 129, 136, 159, 160, 161, 192, 240, 254, 255]
+
+
+def nlri_mutants(rng, b, budget):
+    """NLRI-level inputs: truncations; every octet set to the interesting values; and -- for every octet that reads like a
+    length of what follows it (value == number of following octets, minus a small constant) -- the NLRI made longer by k
+    octets with that length raised by k, combined with every other octet set to the interesting values (a longer inner
+    field is accepted only when the outer lengths make room for it)"""
+    out = [b[:k] for k in range(len(b))]
+    for i in range(len(b)):
+        for v in INTERESTING:
+            if b[i] != v:
+                out.append(b[:i] + bytes([v]) + b[i + 1:])
+    lens = [i for i in range(len(b)) if 0 <= (len(b) - i - 1) - b[i] <= 2]
+    combos = []
+    for i in lens:
+        for k in (1, 4, 8, 13, 16):
+            if b[i] + k > 255:
+                continue
+            grown = bytearray(b[:i] + bytes([b[i] + k]) + b[i + 1:] + bytes(rng.getrandbits(8) for _ in range(k)))
+            combos.append(bytes(grown))
+            for j in range(len(b)):
+                if j == i:
+                    continue
+                for v in INTERESTING:
+                    if grown[j] != v:
+                        combos.append(bytes(grown[:j]) + bytes([v]) + bytes(grown[j + 1:]))
+    if len(combos) > budget:
+        combos = rng.sample(combos, budget)
+    return out + combos
+
+
 def line_of(c):
+    if c["op"] == "nlri":
+        return "nlri %d %d %s" % (c["afi"], c["safi"], c["bytes"].hex())
     if c["op"] == "fuzz":
         return "fuzz %d %d %s" % (1 if c["ap"] else 0, 1 if c["as2"] else 0, c["bytes"].hex())
     return "dec %d %s" % (1 if c["ap"] else 0, c["bytes"].hex())
 
 
 def norm(c, out):
-    if c["op"] == "fuzz":
+    if c["op"] in ("fuzz", "nlri"):
         return "n/a"
     return "err" if out.startswith("err") else out
 
 
 def oracle(c, out):
+    if c["op"] == "nlri":
+        if out.startswith("panic"):
+            return ("nlri-decoder-panic", "NLRIFromSlice(afi %d, safi %d) panicked: %s" % (c["afi"], c["safi"], out[:300]))
+        if out == "modified-input":
+            return ("input-modified", "the caller's buffer was changed")
+        return None
     if c["op"] == "fuzz":
         if out.startswith("panic"):
             return ("parser-panic", out[:300])
@@ -97,6 +137,21 @@ def run(ctx):
     for h in CORPUS:
         for ap in (False, True):
             cases.append({"op": "fuzz", "ap": ap, "as2": False, "bytes": bytes.fromhex(h)})
+    # the NLRI decoders of every family, one NLRI at a time (NLRIFromSlice), on mutants of constructor-built NLRI
+    nseeds = []
+    if okg:
+        o, err = core.run_lines(impl, ["nlriseeds x x x"])
+        if not err and o[0].startswith("ok "):
+            for t in o[0].split()[1:]:
+                a, sf, h = t.split(":")
+                nseeds.append((int(a), int(sf), bytes.fromhex(h)))
+    nlri_n = 0
+    for a, sf, nb in nseeds:
+        if len(nb) > 80:
+            continue
+        for mb in nlri_mutants(rng, nb, ctx.scale(1500, 40000)):
+            cases.append({"op": "nlri", "afi": a, "safi": sf, "bytes": mb})
+            nlri_n += 1
     nmut = ctx.scale(20000, 600000)
     for _ in range(nmut):
         ap, b = rng.choice(seeds + [(False, x) for x in rich] * 20) if seeds else (False, b"")
@@ -111,7 +166,7 @@ def run(ctx):
     pc = core.proof_coverage(proof)
     pc.update(cov)
     pc.update({
-        "input_distribution": {"seeds": len(seeds), "rich_seeds": [len(x) for x in rich], "fuzz": sum(1 for c in cases if c["op"] == "fuzz"), "decode_compared": sum(1 for c in cases if c["op"] == "dec")},
+        "input_distribution": {"seeds": len(seeds), "rich_seeds": [len(x) for x in rich], "fuzz": sum(1 for c in cases if c["op"] == "fuzz"), "nlri_seeds": len(nseeds), "nlri_level_mutants": nlri_n, "decode_compared": sum(1 for c in cases if c["op"] == "dec")},
         "rule": "seeds = constructor-built messages (as in C04); inputs = every proper prefix of every seed (raw, and with the header length made consistent), every octet of "
                 "the body set to 0x00/0xff, and structure-aware random mutations (truncation, length fields, flag/type bytes, appended junk, message type, header length); each parsed "
                 "under ADD-PATH on/off, 2-/4-octet AS, extended messages on/off; non-trivial = longer than a header",
